@@ -209,7 +209,7 @@ M = [
     ("m17a", ["C17"], "src/mach/runtime.rs", "                    ',' if !in_quote => {", "                    ',' => {", "commas inside quotes split"),
     ("m17b", ["C17"], "src/mach/runtime.rs", "        let is_caps = !matches!(caps, Val::Integer(i) if i == 0);", "        let is_caps = matches!(caps, Val::Integer(i) if i == 0);", "caps inverted"),
     ("m17c", ["C17"], "src/mach/runtime.rs", "            if len != vec_val.len() {", "            if len < vec_val.len() {", "too few fields accepted"),
-    ("m17d", ["C17"], "src/mach/runtime.rs", "                let mut field = field.trim();\n                if var_name.ends_with('$') {", "                let mut field = field.trim_start();\n                if var_name.ends_with('$') {",
+    ("m17d", ["C17"], "src/mach/runtime.rs", "                let mut field = field.trim();\n                if self.vars.is_string(&var_name) {", "                let mut field = field.trim_start();\n                if self.vars.is_string(&var_name) {",
      "trailing blanks kept (and quotes then not stripped)"),
     # ---- C18 memory
     ("m18a", ["C18", "C17"], "src/mach/runtime.rs", "                self.stack.pop()?;\n                self.stack.pop()?;\n                self.stack.pop()?;\n                self.stack.pop()?;\n                return Ok(None);",
